@@ -7,6 +7,7 @@ import (
 	"encoding/json"
 	"fmt"
 	"strings"
+	"time"
 
 	"gopkg.in/typ.v4/sync2"
 
@@ -17,17 +18,21 @@ import (
 
 // Caller is one task calling Do.
 type Caller struct {
-	Delay int  `json:"delay"`           // yields before calling: later arrivals
-	Inner int  `json:"inner"`           // scheduling points inside this caller's function
-	Again int  `json:"again"`           // extra Do calls afterwards by the same task
-	Panic bool `json:"panic,omitempty"` // fault: this caller's function panics instead of returning
-	Nil   bool `json:"nil,omitempty"`   // this caller passes a nil function
+	Delay int   `json:"delay"`           // yields before calling: later arrivals
+	Inner int   `json:"inner"`           // scheduling points inside this caller's function
+	Again int   `json:"again"`           // extra Do calls afterwards by the same task
+	Panic bool  `json:"panic,omitempty"` // fault: this caller's function panics instead of returning
+	Nil   bool  `json:"nil,omitempty"`   // this caller passes a nil function
+	Sleep int64 `json:"sleep,omitempty"` // virtual nanoseconds this caller's function sleeps: a slow action
+	On    int   `json:"on,omitempty"`    // with two Once values: which one this caller uses
+	Nest  bool  `json:"nest,omitempty"`  // with two Once values: this caller's function calls Do on the other one
 }
 
 // Scenario is a set of callers of one OnceN value.
 type Scenario struct {
 	N       int      `json:"n"`               // 1, 2 or 3 results
 	Iface   bool     `json:"iface,omitempty"` // N==1 only: the result type is an interface and the functions return nil
+	Two     bool     `json:"two,omitempty"`   // two Once values of the same type are in use at once
 	Callers []Caller `json:"callers"`
 }
 
@@ -53,6 +58,9 @@ func (H) Describe(sc any) string {
 	if s.Iface {
 		return fmt.Sprintf("Once1[any] returning nil, callers=%+v", s.Callers)
 	}
+	if s.Two {
+		return fmt.Sprintf("two Once%d values, callers=%+v", s.N, s.Callers)
+	}
 	return fmt.Sprintf("Once%d callers=%+v", s.N, s.Callers)
 }
 
@@ -62,9 +70,17 @@ func (H) Generate(r *simrt.Rand, tier string) any {
 	if s.N == 1 && r.Intn(3) == 0 {
 		s.Iface = true
 	}
+	s.Two = r.Intn(4) == 0
 	n := 2 + r.Intn(5)
 	for i := 0; i < n; i++ {
 		c := Caller{Inner: r.Intn(4)}
+		if r.Intn(6) == 0 {
+			c.Sleep = []int64{int64(time.Millisecond), int64(time.Second)}[r.Intn(2)]
+		}
+		if s.Two {
+			c.On = r.Intn(2)
+			c.Nest = c.On == 0 && r.Intn(3) == 0
+		}
 		if r.Intn(3) == 0 {
 			c.Delay = r.Intn(12)
 		}
@@ -90,18 +106,27 @@ func (H) Shrink(sc any) []any {
 		if len(s.Callers) <= 1 {
 			break
 		}
-		c := &Scenario{N: s.N, Iface: s.Iface}
+		c := &Scenario{N: s.N, Iface: s.Iface, Two: s.Two}
 		c.Callers = append(append([]Caller(nil), s.Callers[:i]...), s.Callers[i+1:]...)
 		out = append(out, c)
 	}
 	for i, cl := range s.Callers {
 		if cl.Panic || cl.Nil {
-			c := &Scenario{N: s.N, Iface: s.Iface, Callers: append([]Caller(nil), s.Callers...)}
+			c := &Scenario{N: s.N, Iface: s.Iface, Two: s.Two, Callers: append([]Caller(nil), s.Callers...)}
 			c.Callers[i].Panic, c.Callers[i].Nil = false, false
 			out = append(out, c)
 		}
+		if cl.Sleep > 0 || cl.Nest {
+			c := &Scenario{N: s.N, Iface: s.Iface, Two: s.Two, Callers: append([]Caller(nil), s.Callers...)}
+			if cl.Nest {
+				c.Callers[i].Nest = false
+			} else {
+				c.Callers[i].Sleep = 0
+			}
+			out = append(out, c)
+		}
 		if cl.Delay > 0 || cl.Inner > 0 || cl.Again > 0 {
-			c := &Scenario{N: s.N, Iface: s.Iface, Callers: append([]Caller(nil), s.Callers...)}
+			c := &Scenario{N: s.N, Iface: s.Iface, Two: s.Two, Callers: append([]Caller(nil), s.Callers...)}
 			if cl.Delay > 0 {
 				c.Callers[i].Delay = 0
 			} else if cl.Again > 0 {
@@ -137,87 +162,128 @@ type result struct {
 // Execute implements core.Harness.
 func (H) Execute(scAny any, cfg simrt.Config, st *core.Stats) (*simrt.Outcome, *core.Violation) {
 	sc := scAny.(*Scenario)
-	var o1 sync2.Once1[int]
-	var oi sync2.Once1[any] // interface-typed result: the action returns nil
-	var o2 sync2.Once2[int, int]
-	var o3 sync2.Once3[int, int, int]
-	invoked := make([]int, len(sc.Callers)) // per function: each slot written by the task that runs it
-	nilInvoked := make([]int, len(sc.Callers))
-	effect := 0 // plain: written as the last statement of the action
-	var results [][]result
-	for range sc.Callers {
-		results = append(results, nil)
+	// one or two Once values of the same type: an implementation may share state
+	// between values (a package-level lock or condition variable), and the
+	// statement is about each value
+	nOnce := 1
+	if sc.Two {
+		nOnce = 2
 	}
+	var o1 [2]sync2.Once1[int]
+	var oi [2]sync2.Once1[any] // interface-typed result: the action returns nil
+	var o2 [2]sync2.Once2[int, int]
+	var o3 [2]sync2.Once3[int, int, int]
+	// function identities: caller i's own function is i; the function it passes to
+	// the other value from inside its action (Nest) is len(Callers)+i
+	nf := 2 * len(sc.Callers)
+	invoked := make([][]int, nOnce) // per value, per function: each slot written by the task that runs it
+	nilInvoked := make([][]int, nOnce)
+	for k := range invoked {
+		invoked[k] = make([]int, nf)
+		nilInvoked[k] = make([]int, nf)
+	}
+	var effect [2]int // plain: written as the last statement of the action
+	type tagged struct {
+		once int
+		res  result
+	}
+	results := make([][]tagged, len(sc.Callers))
 	cfg.StopWhenClientsDone = true // goroutines of the implementation itself (none on the pinned tree) do not keep a run alive
 	s := simrt.New(cfg)
+	// do calls Do on value k with function identity who; body is the action
+	var do func(k, who int, isNil bool, body func()) result
+	do = func(k, who int, isNil bool, body func()) (res result) {
+		defer func() {
+			if p := recover(); p != nil {
+				if _, ours := p.(actionPanic); !ours {
+					if e, isErr := p.(error); !(isNil && isErr && strings.Contains(e.Error(), "nil pointer dereference")) {
+						panic(p)
+					}
+					// this caller's nil function was the one chosen: the invocation panics
+					nilInvoked[k][who]++
+				}
+				res.panicked = true
+			}
+			res.effect = effect[k]
+			res.done = true
+		}()
+		switch {
+		case isNil && sc.N == 1 && sc.Iface:
+			got := oi[k].Do(nil)
+			res.r[0] = (winnerOf(invoked[k])+1)*10 + 1
+			if got != nil {
+				res.r[0] = -1
+			}
+		case isNil && sc.N == 1:
+			res.r[0] = o1[k].Do(nil)
+		case isNil && sc.N == 2:
+			res.r[0], res.r[1] = o2[k].Do(nil)
+		case isNil && sc.N == 3:
+			res.r[0], res.r[1], res.r[2] = o3[k].Do(nil)
+		case sc.N == 1 && sc.Iface:
+			got := oi[k].Do(func() any { body(); return nil })
+			res.r[0] = (winnerOf(invoked[k])+1)*10 + 1 // nil is the only possible value: encode "as expected"
+			if got != nil {
+				res.r[0] = -1
+			}
+		case sc.N == 1:
+			res.r[0] = o1[k].Do(func() int { body(); return (who+1)*10 + 1 })
+		case sc.N == 2:
+			res.r[0], res.r[1] = o2[k].Do(func() (int, int) { body(); return (who+1)*10 + 1, (who+1)*10 + 2 })
+		case sc.N == 3:
+			res.r[0], res.r[1], res.r[2] = o3[k].Do(func() (int, int, int) { body(); return (who+1)*10 + 1, (who+1)*10 + 2, (who+1)*10 + 3 })
+		}
+		return res
+	}
 	s.Go(func() {
 		var wg ssync.WaitGroup
 		wg.Add(len(sc.Callers))
 		for i := range sc.Callers {
 			i := i
 			c := sc.Callers[i]
+			k := 0
+			if sc.Two {
+				k = c.On & 1
+			}
 			simrt.Go(func() {
 				defer wg.Done()
 				for d := 0; d < c.Delay; d++ {
 					simrt.Yield()
 				}
 				body := func() {
-					invoked[i]++
-					for k := 0; k < c.Inner; k++ {
+					invoked[k][i]++
+					for j := 0; j < c.Inner; j++ {
 						simrt.Yield()
+					}
+					if c.Sleep > 0 {
+						// a slow action (I/O, a long computation): virtual time passes only
+						// when every other task is waiting too - or spinning, which a waiter
+						// may do for a while but not instead of waiting
+						simrt.Count("fault.slow_action", 1)
+						simrt.Sleep(time.Duration(c.Sleep))
+					}
+					if sc.Two && c.Nest && k == 0 {
+						// the action itself uses the other Once value (an initialiser that
+						// needs another lazily initialised thing)
+						simrt.Count("fault.nested_other_once", 1)
+						me := len(sc.Callers) + i
+						nr := do(1, me, false, func() {
+							invoked[1][me]++
+							simrt.Yield()
+							effect[1] = me + 1
+						})
+						results[i] = append(results[i], tagged{1, nr})
 					}
 					if c.Panic {
 						simrt.Count("fault.action_panics", 1)
 						panic(actionPanic{})
 					}
-					effect = i + 1
+					effect[k] = i + 1
 				}
 				for rep := 0; rep <= c.Again; rep++ {
 					simrt.Yield()
-					var res result
-					func() {
-						defer func() {
-							if p := recover(); p != nil {
-								if _, ours := p.(actionPanic); !ours {
-									if e, isErr := p.(error); !(c.Nil && isErr && strings.Contains(e.Error(), "nil pointer dereference")) {
-										panic(p)
-									}
-									// this caller's nil function was the one chosen: the invocation panics
-									nilInvoked[i]++
-								}
-								res.panicked = true
-							}
-						}()
-						switch {
-						case c.Nil && sc.N == 1 && sc.Iface:
-							got := oi.Do(nil)
-							res.r[0] = (winnerOf(invoked)+1)*10 + 1
-							if got != nil {
-								res.r[0] = -1
-							}
-						case c.Nil && sc.N == 1:
-							res.r[0] = o1.Do(nil)
-						case c.Nil && sc.N == 2:
-							res.r[0], res.r[1] = o2.Do(nil)
-						case c.Nil && sc.N == 3:
-							res.r[0], res.r[1], res.r[2] = o3.Do(nil)
-						case sc.N == 1 && sc.Iface:
-							got := oi.Do(func() any { body(); return nil })
-							res.r[0] = (winnerOf(invoked)+1)*10 + 1 // nil is the only possible value: encode "as expected"
-							if got != nil {
-								res.r[0] = -1
-							}
-						case sc.N == 1:
-							res.r[0] = o1.Do(func() int { body(); return (i+1)*10 + 1 })
-						case sc.N == 2:
-							res.r[0], res.r[1] = o2.Do(func() (int, int) { body(); return (i+1)*10 + 1, (i+1)*10 + 2 })
-						case sc.N == 3:
-							res.r[0], res.r[1], res.r[2] = o3.Do(func() (int, int, int) { body(); return (i+1)*10 + 1, (i+1)*10 + 2, (i+1)*10 + 3 })
-						}
-					}()
-					res.effect = effect
-					res.done = true
-					results[i] = append(results[i], res)
+					res := do(k, i, c.Nil, body)
+					results[i] = append(results[i], tagged{k, res})
 				}
 			})
 		}
@@ -233,45 +299,60 @@ func (H) Execute(scAny any, cfg simrt.Config, st *core.Stats) (*simrt.Outcome, *
 	if core.Deadlocked(out) {
 		return out, &core.Violation{Signature: "deadlock", Detail: fmt.Sprint("Do never returned: ", out.StuckTasks)}
 	}
-	total, winner := 0, -1
-	for i, n := range invoked {
-		total += n
-		if n > 0 {
-			winner = i
-		}
-	}
-	nilTotal := 0
-	for _, n := range nilInvoked {
-		nilTotal += n
-	}
-	if nilTotal > 0 {
-		// a nil function was the one invoked (and panicked): it counts as the one
-		// invocation, and there are no values to share
-		if total+nilTotal != 1 {
-			return out, &core.Violation{Signature: "invocations!=1", Detail: fmt.Sprintf("%d function invocations in total, %d of them of a nil function (per caller: %v / %v)", total+nilTotal, nilTotal, invoked, nilInvoked)}
-		}
-		return out, nil
-	}
-	if total != 1 {
-		return out, &core.Violation{Signature: "invocations!=1", Detail: fmt.Sprintf("%d function invocations in total (per caller: %v)", total, invoked)}
-	}
-	if sc.Callers[winner].Panic {
-		// the one invocation did not return: there are no values to share; what the
-		// statement still promises is that no second function is invoked (checked above)
-		return out, nil
-	}
-	for i, rs := range results {
-		for _, r := range rs {
-			if r.panicked {
-				return out, &core.Violation{Signature: "unexpected-panic", Detail: fmt.Sprintf("caller %d's Do panicked although the invoked function returned normally", i)}
+	for k := 0; k < nOnce; k++ {
+		total, winner := 0, -1
+		for i, n := range invoked[k] {
+			total += n
+			if n > 0 {
+				winner = i
 			}
-			for k := 0; k < sc.N; k++ {
-				if r.r[k] != (winner+1)*10+k+1 {
-					return out, &core.Violation{Signature: "wrong-results", Detail: fmt.Sprintf("caller %d got %v, the only invocation (caller %d's function) returned %d..", i, r.r[:sc.N], winner, (winner+1)*10+1)}
+		}
+		nilTotal := 0
+		for _, n := range nilInvoked[k] {
+			nilTotal += n
+		}
+		used := false
+		for _, rs := range results {
+			for _, r := range rs {
+				used = used || r.once == k
+			}
+		}
+		if !used && total == 0 {
+			continue // nobody called Do on this value
+		}
+		if nilTotal > 0 {
+			// a nil function was the one invoked (and panicked): it counts as the one
+			// invocation, and there are no values to share
+			if total+nilTotal != 1 {
+				return out, &core.Violation{Signature: "invocations!=1", Detail: fmt.Sprintf("value %d: %d function invocations in total, %d of them of a nil function (per function: %v / %v)", k, total+nilTotal, nilTotal, invoked[k], nilInvoked[k])}
+			}
+			continue
+		}
+		if total != 1 {
+			return out, &core.Violation{Signature: "invocations!=1", Detail: fmt.Sprintf("value %d: %d function invocations in total (per function: %v)", k, total, invoked[k])}
+		}
+		if winner < len(sc.Callers) && sc.Callers[winner].Panic {
+			// the one invocation did not return: there are no values to share; what the
+			// statement still promises is that no second function is invoked (checked above)
+			continue
+		}
+		for i, rs := range results {
+			for _, tr := range rs {
+				if tr.once != k {
+					continue
 				}
-			}
-			if r.effect != winner+1 {
-				return out, &core.Violation{Signature: "returned-before-completion", Detail: fmt.Sprintf("caller %d returned from Do and read effect=%d, but the invocation's last write is %d", i, r.effect, winner+1)}
+				r := tr.res
+				if r.panicked {
+					return out, &core.Violation{Signature: "unexpected-panic", Detail: fmt.Sprintf("caller %d's Do on value %d panicked although the invoked function returned normally", i, k)}
+				}
+				for j := 0; j < sc.N; j++ {
+					if r.r[j] != (winner+1)*10+j+1 {
+						return out, &core.Violation{Signature: "wrong-results", Detail: fmt.Sprintf("caller %d got %v from value %d, the only invocation (function %d) returned %d..", i, r.r[:sc.N], k, winner, (winner+1)*10+1)}
+					}
+				}
+				if r.effect != winner+1 {
+					return out, &core.Violation{Signature: "returned-before-completion", Detail: fmt.Sprintf("caller %d returned from Do on value %d and read effect=%d, but the invocation's last write is %d", i, k, r.effect, winner+1)}
+				}
 			}
 		}
 	}
